@@ -176,6 +176,7 @@ Error ConstPool::add(const void* data, size_t size, Out<size_t> offset_out) noex
 
   _tree[tree_index].insert(node);
   _alignment = Support::max<size_t>(_alignment, size);
+  _min_item_size = !_min_item_size ? size : Support::min(_min_item_size, size);
 
   offset_out = offset;
 
@@ -199,11 +200,14 @@ Error ConstPool::add(const void* data, size_t size, Out<size_t> offset_out) noex
       }
 
       node = ConstPool::Tree::new_node_t(_arena, data_ptr, smaller_size, offset + (i * smaller_size), true);
+      if (ASMJIT_UNLIKELY(!node)) {
+        // The constant itself has been added - sharing its parts is only an optimization we can give up.
+        return Error::kOk;
+      }
       _tree[tree_index].insert(node);
     }
   }
 
-  _min_item_size = !_min_item_size ? size : Support::min(_min_item_size, size);
   return Error::kOk;
 }
 
